@@ -95,7 +95,9 @@ class FsMonitor:
                     self.active = True
             fac = self.fail_open.get(ap)
             if fac is not None and not is_write:
-                raise fac(ap)
+                exc = fac(ap)   # a factory may return None: "not this time" (e.g. spare the content sniffing, hit the next read)
+                if exc is not None:
+                    raise exc
             fac = self.fail_write.get(ap)
             if fac is not None and is_write:
                 raise fac(ap)
